@@ -107,3 +107,42 @@ def short_file(desc):
     out = dict(desc)
     out["data"] = "n={} mode={} k={} head={} tail={}".format(d["n"], d["mode"], d["k"], d.get("head", ""), d.get("tail", ""))
     return out
+
+
+# ------------------------------------------------------------------ disk files
+
+def dsk_file(lengths=DSK_LENGTHS, max_uniform=6000, big_weight=1, big=40000):
+    kind = st.sampled_from(["ml", "ml", "basic", "ascii", "ascii_data"])
+    return st.builds(
+        lambda name, ext, kind, load, exe, data: dict(
+            name=name, ext=ext, kind=kind,
+            ftype={"ml": 2, "basic": 0, "ascii": 0, "ascii_data": 1}[kind],
+            dtype=0xFF if kind.startswith("ascii") else 0x00,
+            load=load if kind == "ml" else 0, exec=exe if kind == "ml" else 0, data=data),
+        dsk_name, dsk_ext, kind, word, word, data_desc(lengths, max_uniform=max_uniform, big=big, big_weight=big_weight))
+
+
+def stream_len(desc):
+    n = desc["data"]["n"]
+    return n + (10 if desc["ftype"] == 2 else 0 if desc["dtype"] == 0xFF else 3)
+
+
+fill_order = st.one_of(st.just(None), st.just(None), st.permutations(list(range(68))))
+
+
+def disk_listing_mismatch(listed, files, datas):
+    """compare DiskFile.list_files() output with the expected files; None when equal else text"""
+    if len(listed) != len(files):
+        return "listing has {} files, expected {}".format(len(listed), len(files))
+    for idx, (g, f, d) in enumerate(zip(listed, files, datas)):
+        if norm_name(g.name) != norm_name(f["name"]):
+            return "file {}: name {!r}, expected {!r}".format(idx, g.name, f["name"])
+        if g.extension.strip().casefold() != f["ext"][:3].casefold():
+            return "file {}: extension {!r}, expected {!r}".format(idx, g.extension, f["ext"])
+        if value_int(g.type) != f["ftype"] or value_int(g.data_type) != f["dtype"]:
+            return "file {}: type/ascii flag {}/{} expected {}/{}".format(idx, value_int(g.type), value_int(g.data_type), f["ftype"], f["dtype"])
+        if f["ftype"] == 2 and (value_int(g.load_addr) != f["load"] or value_int(g.exec_addr) != f["exec"]):
+            return "file {}: load/entry {}/{} expected {}/{}".format(idx, value_int(g.load_addr), value_int(g.exec_addr), f["load"], f["exec"])
+        if bytes(bytearray(g.data)) != d:
+            return "file {}: {} data bytes differ from the {} written".format(idx, len(g.data), len(d))
+    return None
